@@ -115,7 +115,7 @@ def _create_transmissivity_function(parameters, result):
 @contract("spowtd.simulate_recession:simulate_recession", db=True,
           args={"connection": "connection", "parameter_file": "file"},
           returns="tuple[array[real],array[real],array[real]]",
-          ghost_results={"g_rows": "list[tuple[real,real]]", "g_Q": "fn"})
+          ghost_results={"g_rows": "list[tuple[real,real]]", "g_Q": "fn", "g_pk": "bool", "g_T": "fn", "g_T0": "fn"})
 def _simulate_recession(connection, parameter_file, result):
     """C18 at the level of the command: the measured master recession curve (elapsed time in days, level in cm, ascending
     in level) is returned unchanged together with a simulated curve on exactly those levels (in mm: cm x 10) whose mean
